@@ -129,6 +129,19 @@ func (x *c20SX) ev(e ast.Expr, st *c20St) []c20EV {
 		}
 		return out
 	case *ast.SliceExpr:
+		// scratch[:0]: an empty byte buffer over a local array or over a buffer that is itself still empty. (The bytes
+		// appended land in the scratch storage; what leaves is a copy: string(buf), append(dst, buf...).)
+		if hi, ok := constInt(x.info, e.High); e.Low == nil && e.High != nil && ok && hi == 0 && e.Max == nil {
+			var out []c20EV
+			for _, r := range x.ev(e.X, st) {
+				if r.st.ctl == c20cRun && r.v.k == c20kBytes && (r.v.tag == "array" || len(r.v.sym) == 0) && r.v.tag != "builder" {
+					out = append(out, c20EV{r.st, c20V{k: c20kBytes}})
+				} else {
+					out = append(out, c20EV{r.st, c20Unknown("expression `%s`", x.srcOf(e))})
+				}
+			}
+			return out
+		}
 		// ids[1:]: the elements after the first (the first was handled separately); panics on an empty list
 		if lo, ok := constInt(x.info, e.Low); e.Low != nil && ok && lo == 1 && e.High == nil && e.Max == nil {
 			var out []c20EV
